@@ -104,6 +104,8 @@ def is_boundary(b, i):
 def impl_oracle(text, r):
     """C12's statement evaluated on the implementation's result"""
     b = text.encode("utf-8")
+    if r.get("timeout"):
+        return "lexing/parsing gave no result within 3 s (does not terminate)"
     if "panic" in r:
         return "lexing/parsing panicked: " + r["panic"][:200]
     pos = 0
@@ -169,8 +171,13 @@ def check(run, prop="C12"):
         broken.append(b)
     # ---- (b) build_tree correspondence + (c) the property on the implementation
     tins, n_exh = text_inputs(run)
-    tres = vlib.run_harness("lexparse", [{"text": t} for t in tins], shards=vlib.NCPU)
-    tres2 = vlib.run_harness("lexparse", [{"text": t} for t in tins[:: max(1, len(tins) // 400)]], shards=4)
+    try:
+        tres = vlib.run_harness("lexparse", [{"text": t, "timeout_ms": 3000} for t in tins], shards=vlib.NCPU)
+        tres2 = vlib.run_harness("lexparse", [{"text": t, "timeout_ms": 3000} for t in tins[:: max(1, len(tins) // 400)]], shards=4)
+    except vlib.Hang as h:
+        tres, tres2 = [], []
+        for x in h.inputs:
+            wits.append({"kind": "lexing/parsing gave no result within 3 s (does not terminate)", "text": x["text"]})
     for t, r in zip(tins[:: max(1, len(tins) // 400)], tres2):
         pass
     brow, bidx = [], []
@@ -229,7 +236,7 @@ def check(run, prop="C12"):
             n = rng.randint(2, 4)
             lines = ["\\\\" + "".join(rng.choice(["a", "你", " ", "é"]) for _ in range(rng.randint(0, 3))) for _ in range(n)]
             variants.append("".join(l + rng.choice(["\n", "\r\n"]) for l in lines) + rng.choice(["x", "", "你"]))
-        vres = vlib.run_harness("lexparse", [{"text": t} for t in variants], shards=vlib.NCPU)
+        vres = vlib.run_harness("lexparse", [{"text": t, "timeout_ms": 3000} for t in variants], shards=vlib.NCPU)
         for t, r in zip(variants, vres):
             msg = impl_oracle(t, r)
             if msg:
